@@ -257,12 +257,13 @@ def run_drivers(ck, tree, builddir, mods, nproc):
         sf = os.path.join(d, 'spec_%d.json' % gi)
         recs, crashes, fatals = [], [], []
         start = [0, 0]
+        last_timeout_at = None
         for _attempt in range(40):
             for p in (out, prog):
                 if os.path.exists(p):
                     os.unlink(p)
             core.write_json(sf, {'builddir': builddir, 'out': out, 'progress': prog, 'mods': g, 'start': start})
-            r = core.run([core.PY, '-m', 'props.C44_driver', sf], env=tree.env(builddir), timeout=ck.pick(300, 900), as_gb=6)
+            r = core.run([core.PY, '-m', 'props.C44_driver', sf], env=tree.env(builddir), timeout=ck.pick(600, 1800), as_gb=6)
             done = False
             if os.path.exists(out):
                 for ln in open(out).read().splitlines():
@@ -289,6 +290,12 @@ def run_drivers(ck, tree, builddir, mods, nproc):
                 break
             m = g[at[0]]
             case = m['cases'][at[1]] if m['kind'] == 'funcs' and at[1] < len(m['cases']) else '<import>'
+            if r.timed_out and at != last_timeout_at:
+                # the watchdog fired (possibly only because the machine is overloaded): resume at the same case; only a
+                # second time-out at the very same case is reported as a hang of the compiled code
+                last_timeout_at = at
+                start = at
+                continue
             crashes.append({'mod': m['name'], 'case': case, 'kind': 'HANG' if r.timed_out else 'CRASH rc=%s' % r.rc,
                             'stderr': (r.err or '')[-2000:]})
             start = [at[0], at[1] + 1] if m['kind'] == 'funcs' else [at[0] + 1, 0]
